@@ -36,19 +36,23 @@ def sig_of(prop: str, run: dict, verdict: dict) -> str:
     return f"{prop}/{a}:{kind}:{t}/{tags}" + (f"/crash:{crash}" if crash and prop == "C03" else "")
 
 
-def run_family(prop: str, fam: str, tier: str, seed: int, num: int, depth: int, nprof: int) -> Dict[str, Any]:
-    d = tempfile.mkdtemp(prefix="fam_")
-    try:
-        cfg = families.render(fam, tier, gen=False, outdir=d)
-        gcfg = families.render(fam, tier, gen=True, outdir=d)
-        module = families.FAMILIES[fam]["module"]
-        mc = engine.model_check(module, cfg)
-        if mc["violation"]:
-            raise tlc.TlcError(f"specification family {fam} violates its own property {mc['violation']} "
-                               f"(machinery defect, not a verdict on the code)\n" + mc["out"][-3000:])
-        behs = engine.gen_behaviours(module, gcfg, num=num, depth=depth, seed=seed + 1)
-    finally:
-        shutil.rmtree(d, ignore_errors=True)
+def run_family(prop: str, fam: str, tier: str, seed: int, num: int, depth: int, nprof: int, scen=None) -> Dict[str, Any]:
+    if scen is not None:
+        mc = {"distinct": 0, "states": 0, "depth": 0, "wall_s": 0.0}
+        behs = scen(seed, num)
+    else:
+        d = tempfile.mkdtemp(prefix="fam_")
+        try:
+            cfg = families.render(fam, tier, gen=False, outdir=d)
+            gcfg = families.render(fam, tier, gen=True, outdir=d)
+            module = families.FAMILIES[fam]["module"]
+            mc = engine.model_check(module, cfg)
+            if mc["violation"]:
+                raise tlc.TlcError(f"specification family {fam} violates its own property {mc['violation']} "
+                                   f"(machinery defect, not a verdict on the code)\n" + mc["out"][-3000:])
+            behs = engine.gen_behaviours(module, gcfg, num=num, depth=depth, seed=seed + 1)
+        finally:
+            shutil.rmtree(d, ignore_errors=True)
     profiles = [Profile(seed * 7 + i) for i in range(nprof)]
     runs = engine.replay_all(behs, profiles)
     verdicts = engine.run_and_validate([{"tid": r["tid"], "ev": r["ev"]} for r in runs])
@@ -92,7 +96,8 @@ def run(prop: str, tier: str, seed: int) -> Dict[str, Any]:
     for item in plan:
         q = tier == "quick"
         res = run_family(prop, item["fam"], tier, seed, num=item["num_q"] if q else item["num_t"],
-                         depth=item.get("depth", 80), nprof=item.get("prof_q", 2) if q else item.get("prof_t", 4))
+                         depth=item.get("depth", 80), nprof=item.get("prof_q", 2) if q else item.get("prof_t", 4),
+                         scen=item.get("scen"))
         states += res["mc"].get("distinct", 0)
         trans += res["mc"].get("states", 0)
         ntr += len(res["runs"])
@@ -101,13 +106,18 @@ def run(prop: str, tier: str, seed: int) -> Dict[str, Any]:
         if res["other"]:
             notes.append(f"family {item['fam']}: {res['other']} trace(s) rejected on clauses of OTHER properties "
                          f"(not counted against {prop}): {res['other_kinds']}")
-        fams.append({"family": item["fam"], "module": families.FAMILIES[item["fam"]]["module"],
-                     "distinct_states": res["mc"].get("distinct"), "states_generated": res["mc"].get("states"),
-                     "depth": res["mc"].get("depth"), "tlc_wall_s": round(res["mc"]["wall_s"], 1),
-                     "properties_checked": families.FAMILIES[item["fam"]].get("properties", []) +
-                                           families.FAMILIES[item["fam"]].get("invariants", []),
-                     "behaviours": len(res["behs"]), "traces": len(res["runs"]), "accepted": res["nok"],
-                     "rejected_other_property": res["other"]})
+        if item.get("scen") is not None:
+            fams.append({"family": item["fam"], "source": "vf/scenarios.py enumeration (oracle: Manager_Trace)",
+                         "behaviours": len(res["behs"]), "traces": len(res["runs"]), "accepted": res["nok"],
+                         "rejected_other_property": res["other"]})
+        else:
+          fams.append({"family": item["fam"], "module": families.FAMILIES[item["fam"]]["module"],
+                       "distinct_states": res["mc"].get("distinct"), "states_generated": res["mc"].get("states"),
+                       "depth": res["mc"].get("depth"), "tlc_wall_s": round(res["mc"]["wall_s"], 1),
+                       "properties_checked": families.FAMILIES[item["fam"]].get("properties", []) +
+                                             families.FAMILIES[item["fam"]].get("invariants", []),
+                       "behaviours": len(res["behs"]), "traces": len(res["runs"]), "accepted": res["nok"],
+                       "rejected_other_property": res["other"]})
         if res["behs"]:
             samples.append({"behaviour": res["behs"][0][-6:]})
         if res["runs"]:
